@@ -81,83 +81,90 @@ Theorem C41_host_leading_dot_ignored : forall host d : bytes,
   matchDomainName (dot :: host) d = matchDomainName host d.
 Proof. exact mdn_leading_dot. Qed.
 
-(* Compare(a, b) orders disjoint intervals and answers 0 only for overlapping ones *)
-Theorem C41_compare_orders_disjoint_sets : forall a b : bytes, wf a -> wf b ->
+(* Compare(a, b) orders disjoint intervals and answers 0 only for overlapping ones. The values
+   that reach it are well-formed (a non-empty name not starting with '.', optionally preceded by
+   one '.') or the value "."; the single pair it does not treat as duplicates is (".", "."). *)
+Theorem C41_compare_orders_disjoint_sets : forall a b : bytes, wfx a -> wfx b -> ~ (a = dotv /\ b = dotv) ->
   (dcompare a b < 0 <-> before a b) /\ (dcompare a b > 0 <-> before b a) /\
   (dcompare a b = 0 -> inI (lo b) a \/ inI (lo a) b).
 Proof. exact dcompare_sign. Qed.
 
-(* both comparators have monotone sign along a sequence sorted by "entirely before" *)
+(* both comparators have monotone sign along a sequence sorted by "entirely before"
+   (in which only copies of "." may repeat) *)
 Theorem C41_compare_sign_monotone : forall (a : bytes) (l : list bytes),
-  wf a -> Forall wf l -> sd l -> mono (dcompare a) l.
+  wfx a -> Forall wfx l -> sd l -> mono (dcompare a) l.
 Proof. exact mono_dcompare. Qed.
 
 Theorem C41_lookup_sign_monotone : forall (host : bytes) (l : list bytes),
-  Forall wf l -> sd l -> mono (host_cmp host) l.
+  Forall wfx l -> sd l -> mono (host_cmp host) l.
 Proof. exact mono_host. Qed.
 
-(* IsSubset(a, b) is right about overlapping sets, and one of the two directions always holds,
-   so MakeCombinedValue() is never reached *)
-Theorem C41_issubset_sound : forall a b : bytes, wf a -> wf b -> (inI (lo b) a \/ inI (lo a) b) ->
+(* IsSubset(a, b) is right about overlapping sets (any two values), and one of the two directions
+   always holds, so MakeCombinedValue() is never reached *)
+Theorem C41_issubset_sound : forall a b : bytes, (inI (lo b) a \/ inI (lo a) b) ->
   is_subset a b = true -> forall q, inI q a -> inI q b.
 Proof. exact subset_sound. Qed.
 
 Theorem C41_issubset_total : forall a b : bytes, is_subset a b = false -> is_subset b a = true.
 Proof. exact subset_total. Qed.
 
-(* Merge(): terminates normally, keeps the stored sets sorted and pairwise disjoint, and the union
-   of the stored sets grows by exactly the new value's set *)
+(* parse() hands Merge() a well-formed value or "." for every non-empty token, and skipping
+   redundant dots changes nothing else *)
+Theorem C41_normalised_token_shape : forall t : bytes, t <> [] -> wfx (collapse_dots t).
+Proof. exact collapse_wfx. Qed.
+
+Theorem C41_normalisation_only_redundant_dots : forall tok : bytes,
+  (forall r, tok <> dot :: dot :: r) -> norm tok = tok.
+Proof. exact norm_id. Qed.
+
+(* Merge(): terminates normally (never frees a stored value, never reaches MakeCombinedValue()),
+   keeps the stored sets sorted and pairwise disjoint, and the union of the stored sets grows by
+   exactly the new value's set *)
 Theorem C41_merge_keeps_disjoint_same_union : forall (fuel : nat) (t : tree bytes) (n : Z) (v : bytes),
-  inv t -> wf v -> (tree_size t < fuel)%nat ->
+  inv t -> wfx v -> (tree_size t < fuel)%nat ->
   exists t' n', merge fuel t n v = MOk t' n' /\ inv t' /\
     (forall q, covered q (inorder t') <-> covered q (inorder t) \/ inI q v).
 Proof. exact merge_spec. Qed.
 
 (* ===== the property ===== *)
 
-(* For every list of well-formed values (a non-empty name not starting with '.', optionally
-   preceded by one '.'), in any order, with duplicates and overlaps: parse() ends normally and
-   match(host) is true exactly when some value matches the host.
-   _partial: values with two or more leading dots are excluded (the statement is false for them,
-   see the two _refuted theorems) and so is the value "." (true on every case explored by the
-   correspondence run, not proved). *)
-Theorem C41_acl_match_iff_wellformed_partial : forall toks : list bytes, Forall wf toks ->
+(* For EVERY list of non-empty tokens (the configuration parser never yields an empty one), in any
+   order, with duplicates and overlaps, in any letter case: parse() ends normally and match(host)
+   is true exactly when some token matches the host, where a token stands for its value with
+   redundant leading dots skipped ([norm]; "..x" is ".x"), a value beginning with a dot matches
+   that domain and all its sub-domains and any other value matches only itself ([dom_match]). *)
+Theorem C41_acl_match_iff_some_value_matches : forall toks : list bytes, Forall nonempty toks ->
   exists t n, acl_parse toks = MOk t n /\
-    forall host, snd (acl_match t host) = true <-> exists v, In v toks /\ dom_match v host.
+    forall host, snd (acl_match t host) = true <-> exists tok, In tok toks /\ dom_match (norm tok) host.
 Proof. exact acl_correct. Qed.
 
 (* the same for every later lookup: lookups re-shape the tree but never change an answer *)
-Theorem C41_acl_match_sequence_wellformed_partial : forall toks : list bytes, Forall wf toks ->
+Theorem C41_acl_match_sequence : forall toks : list bytes, Forall nonempty toks ->
   forall (hosts : list bytes) (t : tree bytes), acl_holds toks t ->
-  Forall2 (fun host b => b = true <-> exists v, In v toks /\ dom_match v host)
+  Forall2 (fun host b => b = true <-> exists tok, In tok toks /\ dom_match (norm tok) host)
           hosts (snd (acl_match_seq t hosts)).
 Proof. exact acl_match_seq_correct. Qed.
 
-Theorem C41_acl_parse_establishes_invariant : forall toks : list bytes, Forall wf toks ->
+Theorem C41_acl_parse_establishes_invariant : forall toks : list bytes, Forall nonempty toks ->
   exists t n, acl_parse toks = MOk t n /\ acl_holds toks t.
 Proof. exact acl_parse_ok. Qed.
 
-(* The statement for arbitrary non-empty values is false: with the values "..a" and "a" (in this
-   order) the name "a" is not matched although the value "a" matches it ... *)
-Theorem C41_acl_match_iff_any_values_refuted :
-  exists toks host t n,
-    Forall (fun v => v <> []) toks /\
-    acl_parse toks = MOk t n /\
-    (exists v, In v toks /\ dom_match v host) /\
-    snd (acl_match t host) = false.
-Proof. exact acl_any_values_refuted. Qed.
-
-(* ... and with "..a" followed by ".a" Merge() destroys a value that is still stored *)
-Theorem C41_parse_frees_stored_value_refuted : acl_parse [s_dda; s_da] = MDangling.
-Proof. exact acl_parse_dangling_refuted. Qed.
-
 (* non-vacuity: concrete instances of the hypotheses *)
-Example C41_wf_example : Forall wf [s_da; s_a; [120; 46; 97]%N; [65; 46; 98]%N].
-Proof. repeat constructor; cbn; discriminate. Qed.
-Example C41_inv_example : inv (Node (Node Leaf s_a Leaf) [120; 46; 97]%N Leaf).
+Example C41_wfx_example : Forall wfx [s_da; s_a; [120; 46; 97]%N; [65; 46; 98]%N; dotv].
 Proof.
-  split; [repeat constructor; cbn; discriminate|].
-  cbn [inorder app sd]. repeat split; repeat constructor. unfold before, lle. vm_compute. discriminate.
+  repeat (apply Forall_cons;
+          [first [left; split; cbn; first [discriminate | reflexivity] | right; reflexivity]|]).
+  constructor.
+Qed.
+Example C41_inv_example : inv (Node (Node Leaf dotv Leaf) s_a (Node Leaf [120; 46; 97]%N Leaf)).
+Proof.
+  split.
+  - cbn [inorder app].
+    repeat (apply Forall_cons;
+            [first [left; split; cbn; first [discriminate | reflexivity] | right; reflexivity]|]).
+    constructor.
+  - cbn [inorder app sd].
+    repeat split; repeat (apply Forall_cons; [left; unfold before, lle; vm_compute; discriminate|]); constructor.
 Qed.
 Example C41_mono_example : mono (fun b : Z => 3 - b) [1; 3; 5].
 Proof. cbn [mono]. repeat split; repeat (constructor; [vm_compute; discriminate|]); constructor. Qed.
@@ -171,6 +178,15 @@ Proof.
   - unfold dom_match. cbn. split; [discriminate|]. right. exists [120%N]. reflexivity.
   - unfold dom_match. cbn. intros [_ H]. discriminate.
 Qed.
+(* the two inputs that broke the code before the repair of parse() (lost value; freed stored value) *)
+Example C41_former_counterexamples :
+  (exists t n, acl_parse [s_dda; s_a] = MOk t n /\ snd (acl_match t s_a) = true) /\
+  acl_parse [s_dda; s_da] = MOk (Node Leaf s_da Leaf) 1.
+Proof. split; [eexists; eexists; split; vm_compute; reflexivity| vm_compute; reflexivity]. Qed.
+(* "." is the one value that is not its own duplicate; it is merely stored twice *)
+Example C41_dot_value_stored_twice :
+  dcompare dotv dotv = -1 /\ acl_parse [dotv; dotv] = MOk (Node Leaf dotv (Node Leaf dotv Leaf)) 2.
+Proof. split; vm_compute; reflexivity. Qed.
 
 Print Assumptions C41_splay_preserves_inorder.
 Print Assumptions C41_splay_root_and_boundary.
@@ -189,9 +205,9 @@ Print Assumptions C41_compare_sign_monotone.
 Print Assumptions C41_lookup_sign_monotone.
 Print Assumptions C41_issubset_sound.
 Print Assumptions C41_issubset_total.
+Print Assumptions C41_normalised_token_shape.
+Print Assumptions C41_normalisation_only_redundant_dots.
 Print Assumptions C41_merge_keeps_disjoint_same_union.
-Print Assumptions C41_acl_match_iff_wellformed_partial.
-Print Assumptions C41_acl_match_sequence_wellformed_partial.
+Print Assumptions C41_acl_match_iff_some_value_matches.
+Print Assumptions C41_acl_match_sequence.
 Print Assumptions C41_acl_parse_establishes_invariant.
-Print Assumptions C41_acl_match_iff_any_values_refuted.
-Print Assumptions C41_parse_frees_stored_value_refuted.
